@@ -36,10 +36,9 @@ func (err *HTTPError) Is(target error) bool {
 
 func NewHTTPError(resp *http.Response) *HTTPError {
 	defer resp.Body.Close()
-	b, err := io.ReadAll(resp.Body)
-	if err != nil {
-		panic(err)
-	}
+	// the body of an error response may be cut short or garbled: keep whatever
+	// arrived as the raw body rather than panicking
+	b, _ := io.ReadAll(resp.Body)
 	obj := &HTTPError{
 		Code:    resp.StatusCode,
 		RawBody: b,
@@ -47,7 +46,7 @@ func NewHTTPError(resp *http.Response) *HTTPError {
 	if s := resp.Header.Get("Content-Type"); s == CTJSON {
 		obj.Body = &payload.Error{}
 		if err := json.Unmarshal(b, obj.Body); err != nil {
-			panic(err)
+			obj.Body = nil
 		}
 	} else {
 		obj.RawBody = b
